@@ -62,6 +62,14 @@ int snprintf(char *s, size_t n, const char *fmt, ...)
 			break;
 		}
 	}
+#ifdef VF_SNPRINTF_FULL
+	/* message LENGTH as a subject (copies between message buffers): the result is any string that
+	 * fits the size argument - arbitrary bytes, terminated at the latest at s[n - 1] */
+	__CPROVER_havoc_slice(s, n);
+	s[0] = lit ? lit : nondet_char();
+	s[n - 1] = '\0';
+	return nondet_int();
+#endif
 	if (lit == '\0') {
 		s[0] = nondet_char();      /* conversions only: content (and emptiness) arbitrary */
 		s[1] = '\0';
